@@ -322,6 +322,9 @@ func transformPoints(c *tables.CompositeGlyphPart, points []contourPoint) {
 
 func getGlyphExtents(g tables.Glyph, metrics tables.Hmtx, gid gID) GlyphExtents {
 	var extents GlyphExtents
+	if g.Data == nil { // zero extents for the empty glyph (which has no header)
+		return extents
+	}
 	/* Undocumented rasterizer behavior: shift glyph to the left by (lsb - xMin), i.e., xMin = lsb */
 	/* extents.XBearing = hb_min (glyph_header.xMin, glyph_header.xMax); */
 	extents.XBearing = float32(getSideBearing(gid, metrics))
